@@ -6,6 +6,8 @@ def jobs(ctx):
     q = ctx.tier == "quick"
     js = [("drop_ops", ["rand", 400 if q else 20000, k]) for k in range(8)]
     js += [("nucleo_hist", ["rand", 8 if q else 400, 200 + k]) for k in range(8)]
+    # (c) the concurrent schedules of C08, with items that count their drops
+    js += [("boxcar_sched", ["rand", 150 if q else 6000, 700 + k]) for k in range(8)]
     return js
 
 
@@ -15,18 +17,23 @@ def nontrivial(l):
         return ("D", f.get("cap"), f.get("ops")) if f.get("final") not in (None, "-") else None
     if l.startswith("H "):
         return nucleo_common.nontrivial(l)
+    if l.startswith("B "):
+        f = dict(w.split("=", 1) for w in l.split()[1:] if "=" in w)
+        return ("B", f.get("cap"), f.get("progs"))
     return None
 
 
 def run(ctx):
     return core.simple_check(
-        ctx, jobs, distribution=core.field_distribution(("D ", "H "), ["kind", "cap", "cols", "pool", "leakexpected"], numeric=()),
+        ctx, jobs, distribution=core.field_distribution(("D ", "H ", "B "), ["kind", "cap", "cols", "pool", "leakexpected"], numeric=()),
         rule="(a) sequential histories on the item vector through the cfg-gated facade: pushes, batches with honest / too large (up to thousands, so that later "
              "buckets are allocated while earlier ones are not) / too small / zero reported lengths, fill callbacks that panic at a chosen item, capacities "
              "0/1/33/1024, 1-3 columns; every item bumps a per-item drop counter, a counting global allocator reports the bytes still live after the vector is "
              "dropped; (b) the Nucleo histories of C06 with drop-counting items: after every event the set of destroyed items must be exactly the items of the "
              "streams no handle (matcher, worker, snapshot, injector) reaches any more, and after dropping everything every item was dropped exactly once. "
-             "Distinct non-trivial = distinct histories with at least one item / two ticks",
+             "(c) the seeded schedules of C08 (2-4 real threads stepped at the yield points of the vector: racing allocations of one bucket, batches into foreign buckets, "
+             "lying iterators) with drop-counting items: once the threads and the last handle are gone every created item has been dropped exactly once. "
+             "Distinct non-trivial = distinct histories with at least one item / two ticks, distinct schedules",
         nontrivial=nontrivial,
         correspondence="Model/Drop.lean (dropVec, runDOp) + Nucleo.strongCount ~ src/boxcar.rs Drop/dealloc + Arc handles in src/lib.rs, src/worker.rs",
         assumptions=["Arc reference counting and unwinding are modelled (handles as counts, a panicking callback drops the value it was called for)",
